@@ -1,7 +1,7 @@
 #!/bin/sh
 # collect_seeded.sh <id>...: copy the sub-agent's deliverables from /tmp/mut/<id> into /verif/seeded/<id>/<X>/
 for id in "$@"; do
-  for X in A B C; do
+  for X in A B C D E F G H I; do
     src=/tmp/mut/$id
     [ -f $src/MUT_$X.diff ] || continue
     d=/verif/seeded/$id/$X; mkdir -p $d
